@@ -308,21 +308,44 @@ func ConsumeOutput(out *vmcommon.VMOutput) string {
 		}
 	}
 	bump := big.NewInt(1_000_000_007)
+	// every number of the output is an object of its own: after the owner has added into each of them
+	// once, each must have grown by exactly that much (two fields sharing one object grow twice)
+	type num struct {
+		p    *big.Int
+		want *big.Int
+		what string
+	}
+	var nums []num
+	add := func(v *big.Int, what string) {
+		nums = append(nums, num{v, new(big.Int).Add(v, bump), what})
+		v.Add(v, bump)
+	}
 	for _, k := range keys {
 		oa := out.OutputAccounts[k]
 		if oa == nil {
 			continue
 		}
 		if oa.Balance != nil {
-			oa.Balance.Add(oa.Balance, bump)
+			add(oa.Balance, fmt.Sprintf("balance of %x", oa.Address))
 		}
 		if oa.BalanceDelta != nil {
-			oa.BalanceDelta.Add(oa.BalanceDelta, bump)
+			add(oa.BalanceDelta, fmt.Sprintf("balance delta of %x", oa.Address))
 		}
 		for i := range oa.OutputTransfers {
 			if v := oa.OutputTransfers[i].Value; v != nil {
-				v.Add(v, bump)
+				add(v, fmt.Sprintf("value of transfer %d to %x", i, oa.Address))
 			}
+		}
+	}
+	for _, n := range nums {
+		if n.p.Cmp(n.want) != 0 {
+			return fmt.Sprintf("the owner of the output added %v to each of its numbers once; the %s grew by %v: it shares its number object with another field", bump, n.what, new(big.Int).Sub(n.p, new(big.Int).Sub(n.want, bump)))
+		}
+	}
+	for _, k := range keys {
+		oa := out.OutputAccounts[k]
+		if oa == nil {
+			continue
 		}
 		for i := range oa.OutputTransfers {
 			oa.OutputTransfers[i] = vmcommon.OutputTransfer{Data: []byte("reused")}
